@@ -271,6 +271,7 @@ class Sim:
         # drain main_sem
         while self.main_sem.acquire(blocking=False):
             pass
+        self.current = None
 
     # ---- scheduling ------------------------------------------------------
     def _runnable(self):
@@ -530,3 +531,13 @@ class Sim:
         for con in list(self.conns):
             con._final_close()
         self.conns = []
+
+
+def _stamp(self):
+    """Unique, totally ordered stamp for invoke/return events."""
+    self.tick += 1
+    return self.tick
+
+
+Sim.tick = 0
+Sim.stamp = _stamp
